@@ -25,6 +25,7 @@ KindsOf(e, vs) == [j \in DOMAIN e.vids |-> vs[IndexOf(e.vids[j], vs)].kind]
 EdgeOK(e, vs) == /\ Known(e, vs)
                  /\ IF e.cls = "custom" THEN e.valid ELSE EdgeValid(e.cls, KindsOf(e, vs), e.est, e.off, e.info)
 Accepts(vs, es) == \A n \in DOMAIN es : EdgeOK(es[n], vs)
+Bind2(e, vs) == IF Known(e, vs) THEN Bind(e, vs) ELSE <<>>
 UniqueIds(vs) == \A a, b \in DOMAIN vs : vs[a].id = vs[b].id => a = b
 
 Construct(vs, es) ==
@@ -36,29 +37,29 @@ Construct(vs, es) ==
              bind |-> [n \in DOMAIN es |-> IF Known(es[n], vs) THEN Bind(es[n], vs) ELSE <<>>]]
 
 \* ---------- queries: nothing but the observation changes ----------
-Queries == {"calc_chi2", "edge_error", "edge_chi2", "edge_jacobians", "edge_contribs", "equals", "to_g2o", "plot", "vertex_to_g2o", "edge_to_g2o"}
-Query(q) ==
-  /\ status = "ready" /\ q \in Queries
-  /\ obs' = [op |-> q]
-  /\ UNCHANGED <<verts, edges, status>>
+Queries == {"calc_chi2", "edge_error", "edge_chi2", "edge_jacobians", "edge_contribs", "equals", "to_g2o", "plot", "vertex_to_g2o", "edge_to_g2o",
+            "pose_ops", "pose_copy", "vertex_equals", "edge_equals", "edge_plot"}
+QueryEffect(q) == status = "ready" /\ q \in Queries /\ UNCHANGED <<verts, edges, status>>
+Query(q) == QueryEffect(q) /\ obs' = [op |-> q]
 
 \* ---------- user-level mutation of flags ----------
-SetFixed(i, b) ==
+SetFixedEffect(i, b) ==
   /\ status = "ready" /\ i \in DOMAIN verts
   /\ verts' = [verts EXCEPT ![i].fixed = b]
-  /\ obs' = [op |-> "SetFixed"]
   /\ UNCHANGED <<edges, status>>
+SetFixed(i, b) == SetFixedEffect(i, b) /\ obs' = [op |-> "SetFixed"]
 
 \* ---------- optimize(tol, max_iter, fix_first_pose, verbose) ----------
 \* st: stop criterion per iteration of THIS call (st[k], k in 1..maxIter, between the states after k-1 and k updates);
 \* np: the pose tokens after the call (any tokens for free vertices: their meaning is the Gauss-Newton step of Assembly)
 FixedAfter(vs, fixFirst) == [i \in DOMAIN vs |-> vs[i].fixed \/ (fixFirst /\ i = 1)]
-OptCall(maxIter, fixFirst, verbose, st, np) ==
+OptCallEffect(maxIter, fixFirst, np) ==
   /\ status = "ready" /\ Len(verts) >= 1 /\ maxIter >= 1
-  /\ LET fx == FixedAfter(verts, fixFirst)  out == Outcome(st, 0, maxIter) IN
-       /\ verts' = [i \in DOMAIN verts |-> [verts[i] EXCEPT !.fixed = fx[i], !.pose = IF fx[i] THEN @ ELSE np[i]]]
-       /\ obs' = [op |-> "OptCall", rep |-> out]          \* `verbose` occurs in no primed expression
+  /\ LET fx == FixedAfter(verts, fixFirst) IN
+       verts' = [i \in DOMAIN verts |-> [verts[i] EXCEPT !.fixed = fx[i], !.pose = IF fx[i] THEN @ ELSE np[i]]]
   /\ UNCHANGED <<edges, status>>
+OptCall(maxIter, fixFirst, verbose, st, np) ==                   \* `verbose` occurs in no primed expression
+  OptCallEffect(maxIter, fixFirst, np) /\ obs' = [op |-> "OptCall", rep |-> Outcome(st, 0, maxIter)]
 
 Init == verts = <<>> /\ edges = <<>> /\ status = "unbuilt" /\ obs = [op |-> "none"]
 
